@@ -93,6 +93,12 @@ def keys(ctx, rule="C14.keys"):
             "['shots']" in tr and "['cutoff_dim']" in tr
         ctx.ob(rule, br.site, ok, "" if ok else "Blackbird reader/writer disagree on target name / shots / cutoff_dim",
                role="bb-options", line=br.node.lineno)
+    # the spatial structure of a time-domain program (N: concurrent modes per band) is part of its meaning: both formats carry it
+    bwf = ctx.tree.func("io/blackbird_io.py", "to_blackbird")
+    writes_N = any(isinstance(x, ast.Attribute) and x.attr == "N" and dotted(x.value) == bwf.pos_params[0] for x in walk_no_nested(bwf.node))
+    ctx.ob(rule, bwf.site, writes_N, "" if writes_N else "to_blackbird writes only `temporal_modes` for a TDMProgram: the band structure N is not "
+           "saved and from_blackbird_to_tdm rebuilds the program with a single band of all concurrent modes (N=[1, 2] reloads as N=[3]: the "
+           "reloaded program unrolls onto different modes)", role="bb-tdm-N", line=bwf.node.lineno)
     # independent options are transferred independently: the transfer of one option is not conditional on another option
     from .common_guard import path_facts
     for rel_ in ("io/blackbird_io.py", "io/xir_io.py"):
